@@ -559,6 +559,11 @@ class Pure:
         if isinstance(st, ast.Raise):
             exc = st.exc
             nm = exc.func.id if isinstance(exc, ast.Call) and isinstance(exc.func, ast.Name) else (exc.id if isinstance(exc, ast.Name) else None)
+            if nm is None:
+                # exceptions.ValueError-style spelling: the class through a module alias
+                tgt = exc.func if isinstance(exc, ast.Call) else exc
+                if isinstance(tgt, ast.Attribute) and isinstance(tgt.value, ast.Name) and tgt.attr in EXC:
+                    nm = tgt.attr
             if nm not in EXC:
                 binds = []
                 v = self.expr(exc, env, binds)
